@@ -19,7 +19,6 @@ Mon : the property statement on the real code: nothing partial is visible,
 from __future__ import annotations
 
 import hashlib
-import io
 import json
 import os
 import random
@@ -128,13 +127,22 @@ def gen_cases(rng, n, tier):
 
 
 def corpus_cases():
-    W = lambda calls, c=0, n=1: {"kind": "crash", "calls": calls, "chunk": c, "nchunks": n, "seed": 1}
+    W = lambda calls: {"kind": "crash", "calls": calls, "seed": 1}
+    out = []
+    for c in _corpus(W):
+        if c["kind"] == "crash":
+            for i in range(3):      # three residue classes of crash points each: shorter cases
+                out.append(dict(c, chunk=i, nchunks=3))
+        else:
+            out.append(c)
+    return out
+
+
+def _corpus(W):
     return [
         # F5: crash inside the first store of a dataset, then a model sharing it
         W([["db-store", "A"], ["db-store", "B"]]),
-        # wrong dataset: C (other data, equal datainfo) takes the stale data1.csv name
-        W([["db-store", "A"]]),
-        # re-store of a committed key
+        # re-store of a committed key (results for it; another name)
         W([["ctx-store", "A"], ["ctx-store", "AR"]]),
         # name bound to another key
         W([["ctx-store", "A"], ["ctx-store", "E"]]),
@@ -1110,24 +1118,27 @@ def run_text_case(case, drv):
     k, mon, tags = [], [], []
     hdr = "path,time,severity,message\n"
 
-    def mangle(message):
-        return '"' + message.replace('"', '""') + '"'
-
-    # single messages and one whole log
+    # single messages and one whole log, written by the real store_message and read by the real retrieve_log
+    lroot = fresh_dir("log")
+    lctx = G["LocalDirectoryContext"]("ctx", lroot)
+    logf = lroot / "ctx" / "log.csv"
     text = hdr
     for m in case["msgs"]:
-        line = f"ctx,{DATE},info,{mangle(m)}\n"
+        logf.write_text(hdr)
+        lctx.store_message("info", "ctx", DATE, m)
+        one = file_text(logf)
+        line = one[len(hdr):]
         text += line
-        one = hdr + line
         try:
-            df = pd.read_csv(io.StringIO(one))
-            got = log_canon(df)
+            got = log_canon(lctx.retrieve_log())
         except Exception as e:  # noqa
             got = err(e)
+        if drv is not None:
+            exp = hdr + f"ctx,{DATE},info," + drv.ask(["mangle", m]) + "\n"
+            if exp != one:
+                k.append(f"store_message({m!r}): code appends {line!r}, model {exp[len(hdr):]!r}")
         tags.append("msg:" + ("na" if m in NA_STRINGS else "nl" if "\n" in m else "quote" if '"' in m else "plain"))
         if drv is not None:
-            if drv.ask(["mangle", m]) != mangle(m):
-                k.append(f"mangle({m!r})")
             ans = drv.ask(["readlog", one])
             mo = ans[1] if ans[0] == "ok" else ans
             if not (isinstance(got, list) and got and got[0] and not isinstance(got[0][0], str)) and mo != got:
@@ -1146,7 +1157,8 @@ def run_text_case(case, drv):
             for n in sorted({rng.randrange(len(line) + 1) for _ in range(3)}):
                 tt = hdr + f"ctx,{DATE},info,\"first\"\n" + line[:n]
                 try:
-                    g2 = log_canon(pd.read_csv(io.StringIO(tt)))
+                    logf.write_text(tt)
+                    g2 = log_canon(lctx.retrieve_log())
                 except Exception as e:  # noqa
                     g2 = err(e)
                 ans = drv.ask(["readlog", tt])
@@ -1155,15 +1167,16 @@ def run_text_case(case, drv):
                     k.append(f"read of torn log {tt[len(hdr):]!r}: code {g2} model {mo}")
                 tags.append("torn-log:" + ("err" if g2 and g2[0] == "err" else "rows"))
     if drv is not None:
+        logf.write_text(text)
         try:
-            df = pd.read_csv(io.StringIO(text))
-            got = log_canon(df)
+            got = log_canon(lctx.retrieve_log())
         except Exception as e:  # noqa
             got = err(e)
         ans = drv.ask(["readlog", text])
         mo = ans[1] if ans[0] == "ok" else ans
         if not any(x and not isinstance(x[0], str) for x in got) and mo != got:
             k.append(f"read of the whole log: code {str(got)[:200]} model {str(mo)[:200]}")
+    shutil.rmtree(lroot, ignore_errors=True)
     # annotations through the real context
     root = fresh_dir("ann")
     ctx = G["LocalDirectoryContext"]("ctx", root)
